@@ -333,12 +333,541 @@ ENGINE_TEXT_C20 = ("the real crux_cli::codegen (private run/Filter/format, compi
                    "descriptions and their renumbered / re-ordered variants vs M.Codegen (Lean), oracle S.Codegen; serde-reflection "
                    "trace of the real protocol types")
 
+# ---- C14 / C15 (engine http) ------------------------------------------------------------------------------------
+def http_req_gen(tier, seed):
+    return [["gen-req", seed, 6000 if tier == "quick" else 300000]]
+
+
+def http_resp_gen(tier, seed):
+    if tier == "quick":
+        return [["gen-boundary"], ["gen-resp", seed, 8000]]
+    return [["gen-status", 0, 65535], ["gen-boundary"], ["gen-resp", seed, 300000]]
+
+
+def http_req_shape(case, out):
+    # distinct = (api, method, kinds of the builder calls in order, outcome class)
+    t = case.split(" ")
+    kinds = tuple(c.split(":")[0] for c in t[5].split(";")) if len(t) > 5 and t[5] != "_" else ()
+    return (t[1], t[2], kinds, out.split(" ")[0])
+
+
+def http_req_nontrivial(case, out):
+    # non-trivial: at least one builder call and the request was built
+    t = case.split(" ")
+    return len(t) > 5 and t[5] != "_" and out.startswith("req 1")
+
+
+def _status_class(res):
+    p = res.split(":")
+    if p[0] == "err":
+        return "err-" + p[1]
+    s = int(p[1])
+    return "s%dxx" % (s // 100) if 100 <= s < 600 else ("low" if s < 100 else "high")
+
+
+def http_resp_shape(case, out):
+    # distinct = (api, expectation, status class or error kind, #headers class, charset fact, decoder facts' kinds, outcome class)
+    t = case.split(" ")
+    p = t[3].split(":")
+    nh = 0 if p[0] == "err" or p[2] == "_" else min(3, len(p[2].split(",")))
+    o = out.split(" ")
+    return (t[1], t[2], _status_class(t[3]), nh, t[4] != "none", t[5], t[6].split(":")[0], t[7].split(":")[0], " ".join(o[:4] if o[0] == "out" and o[2] == "err" else o[:3]))
+
+
+def http_resp_nontrivial(case, out):
+    # non-trivial: anything but a plain header-less 200 delivered under expect_bytes
+    t = case.split(" ")
+    return not (t[2] == "bytes" and t[3].startswith("ok:200:_:"))
+
+
+def http_req_shrinks(case):
+    # drop one builder call at a time (the opaque fields of the remaining calls stay valid: they depend on the base URL only)
+    t = case.split(" ")
+    if len(t) != 6 or t[5] == "_":
+        return []
+    calls = t[5].split(";")
+    out = []
+    for i in range(len(calls)):
+        rest = calls[:i] + calls[i + 1:]
+        out.append(" ".join(t[:5] + [";".join(rest) if rest else "_"]))
+    return out
+
+
+def http_resp_shrinks(case):
+    # drop a header / halve the body, then let the harness recompute the opaque decoder facts for the new response
+    import subprocess
+    from .core import bin_path
+    t = case.split(" ")
+    if len(t) != 8 or not t[3].startswith("ok:"):
+        return []
+    _, st, hs, body = t[3].split(":")
+    cands = []
+    if hs != "_":
+        h = hs.split(",")
+        for i in range(len(h)):
+            rest = h[:i] + h[i + 1:]
+            cands.append(f"ok:{st}:{','.join(rest) if rest else '_'}:{body}")
+    if body != "-":
+        half = body[: (len(body) // 4) * 2] or "-"
+        cands += [f"ok:{st}:{hs}:{half}", f"ok:{st}:{hs}:-"]
+    out = []
+    for c in cands:
+        r = subprocess.run([bin_path("http"), "mk-resp", t[1], t[2], c], capture_output=True, text=True).stdout.strip()
+        if r and r != "bad-case":
+            out.append(r)
+    return out
+
+
+PROPS["C14"] = {
+    "streams": [Stream("req", "http", "http", http_req_gen, nontrivial=http_req_nontrivial, shape=http_req_shape,
+                       shrink=http_req_shrinks)],
+    "rule": "cases = (API ∈ {capability, command}) × method (the nine convenience constructors get…patch, and request(Method, Url) with "
+            "each of the 39 methods of http-types) × URL (fixed pool: userinfo, ports, default port, IPv6, IDN host, unicode path/query/"
+            "fragment, percent-escapes incl. malformed, dot segments, empty query/fragment, non-special schemes; plus random "
+            "compositions) × a list of 0-8 builder calls in any order out of: header(name, values) with names from a mixed-case / "
+            "repeated pool (Accept/accept/ACCEPT, Content-Type in three spellings, empty name, random token) and 0, 1, 2 or 5 values "
+            "(1 value = the &str form, otherwise &[HeaderValue]; 1/40 non-ASCII = documented panic), content_type(mime) for 15 MIME "
+            "spellings, body_string / body_bytes / body_json / body_form and body(String | Vec<u8> | serde_json::Value) with empty, "
+            "1-byte, binary, unicode, NUL, 4 KiB and 70 KB contents, random JSON values (u64::MAX, i64::MIN, floats, escapes, nesting) "
+            "and form pairs with reserved characters, body(Body::from_reader(cursor, None)) (length unknown), query(&pairs). A real Core<App> executes the script through the real builders; "
+            "the harness prints the HttpRequest operation of the effect (headers grouped by name, sorted). Opaque third-party "
+            "results (Url::parse().to_string(), Mime::to_string(), URL after serde_qs + Url::set_query) are computed by `gen` from "
+            "those crates directly and are part of the case. non-trivial = at least one builder call and a request was built; "
+            "distinct = distinct (api, method, sequence of call kinds, outcome class)",
+    "level_text": "Proof (12 theorems over M.Http.buildRequest; every method token, URL and every LIST of builder calls, arbitrary byte "
+                  "strings, induction over the call list): buildRequest_closed (closed form: one effect, method = upper-cased token, URL "
+                  "= result of the last query() else the parsed URL, body = modelBody, every header name carries exactly "
+                  "modelValues), one_effect, method_url_body_exact, headers_exact (last header()/content_type() call on a "
+                  "case-insensitively equal name wins with ALL its values in order; content-type from the body otherwise), nothing_added, "
+                  "modelValues_eq_expected, modelBody_eq_expected, C14_sound_partial (okReq accepts the model's observation whenever the "
+                  "content type is not stale and no unknown-length body is dropped), stale_content_type_exact and "
+                  "unknown_length_body_dropped_exact (in each defect region the model yields exactly the keyed defect). The FULL "
+                  "statement C14_full is refuted twice: C14_full_false (key stale-content-type: post(u).body_string(\"a\").body_json(&{}) "
+                  "sends `{}` as text/plain;charset=utf-8) and C14_full_false_dropped (key unknown-length-body-dropped: "
+                  "body(Body::from_reader(cursor, None)) reaches the shell with an empty body). The model is one function for both APIs; that both real APIs behave as it is what the "
+                  "correspondence check establishes on every run.",
+    "level_note": "Trusted: Lean kernel + 3 standard axioms; hand model M.Http (checked against the real crux_http through a real Core on "
+                  "6k (quick) / 300k (thorough) generated requests per run + 55 corpus cases); http-types Headers modelled as an "
+                  "association list (insert replaces, entry order unobservable — the harness sorts by name), Body MIME table, "
+                  "form_urlencoded byte serializer modelled exactly (formEncode); url::Url parsing / set_query, serde_qs, Mime "
+                  "parsing/printing and serde_json::to_vec are opaque: their values for the case come from the generator (calling those "
+                  "crates directly, never through crux_http). Header names/values outside ASCII panic in http-types (documented); the "
+                  "property does not constrain that case. Config::base_url joins (Client::url) are not reachable from either public API "
+                  "(no way to configure the client) and are not exercised.",
+    "assumptions": [
+        "header names and values are ASCII (anything else is the documented panic of http-types, outside the property)",
+        "URL text parses (a malformed URL is the documented panic of Http::get & co.)",
+        "bodies are in-memory: the body_* constructors, body(String | Vec<u8> | Value) and body(Body::from_reader(Cursor, None)); "
+        "readers that fail or whose declared length differs from their content are not modelled",
+    ],
+}
+
+PROPS["C15"] = {
+    "streams": [Stream("resp", "http", "http", http_resp_gen, nontrivial=http_resp_nontrivial, shape=http_resp_shape,
+                       shrink=http_resp_shrinks)],
+    "rule": "cases = (API ∈ {capability, command}) × expectation (bytes, string, json::<serde_json::Value>, json::<u64>) × result: "
+            "HttpResult::Ok with status (thorough: EVERY status 0..=65535 once, exhaustive; quick: the boundary set 0, 1, 99..103, 199, "
+            "200, 299, 300, 305, 306, 399, 400, 499, 500, 599, 600, 999, 1000, 65534, 65535 and every entry of the http-types table ±1, "
+            "each × both APIs × 4 expectations; random part: 75 % table entries, 12 % boundary set, 13 % other), 0/1/3/7 headers from a "
+            "pool with mixed-case and repeated names, several content types and charsets (utf-8, UTF8, quoted, iso-8859-1, euc-kr, "
+            "utf-16le, unknown label, unparsable), empty names/values, control characters, 1/12 lists with non-ASCII; bodies per "
+            "expectation: valid / invalid UTF-8 (overlong, surrogate, > U+10FFFF, truncated), UTF-8 and UTF-16 byte order marks, "
+            "binary, 70 KB, JSON valid / malformed / out of range for u64; or HttpResult::Err with every HttpError variant (Url, Io, "
+            "Timeout, Json, Http). A real Core<App> issues a GET with the expectation, the harness resolves the effect with the result "
+            "and prints the number of events and the single outcome (or the panic class). Opaque decoder facts (charset parameter via "
+            "Mime, Encoding::for_label, encoding_rs decode for non-UTF-8, serde_json::from_slice) come from `gen` calling those crates "
+            "directly. non-trivial = anything but a header-less 200 under expect_bytes; distinct = distinct (api, expectation, status "
+            "class / error kind, header-count class, charset present, decoder fact kinds, outcome class)",
+    "level_text": "Proof (20 theorems over M.Http.outcome; every status s : Nat — split symbolically into outside / inside the 59-row "
+                  "table, the table evaluated once in validStatus_range — every header list and body by induction, every shell error, "
+                  "each expectation): one_outcome (one event, or a panic exactly in the two conversion defects), classify_valid (valid "
+                  "status: < 400 success with same status/body and the shell's headers, >= 400 HttpError::Http{status, body}), "
+                  "passthrough, expect_bytes_exact, expect_string_utf8 (= String::from_utf8: well-formed UTF-8 unchanged, else an error "
+                  "value), expect_string_utf8_standard (well-formed = encoding of a sequence of Unicode scalar values, via "
+                  "Lemmas.Utf8.validUtf8_iff for all byte strings), expect_json_param, applyExpect_conforms. The FULL statements are refuted from witnesses: C15_no_panic_false "
+                  "(status 0 / 299 / héllo), C15_headers_same_false, C15_full_false. Strongest true restriction: C15_partial (convertible "
+                  "results outside the BOM quirk are accepted modulo the injected content type) and C15_sound_nonfinding (errors satisfy "
+                  "the unweakened specification); invalid_status_exact, non_ascii_header_exact, content_type_injected_exact, "
+                  "utf8_bom_kept_exact prove that in each defect region the model produces exactly the keyed defect "
+                  "(invalid-status-panics, non-ascii-header-panics, content-type-injected, utf8-bom-kept-under-other-label).",
+    "level_note": "Trusted: Lean kernel + 3 standard axioms; hand model M.Http.outcome (checked against the real crux_http through a real "
+                  "Core on ~10k (quick) / ~370k (thorough, incl. all 65536 statuses) results per run + 108 corpus cases); http-types "
+                  "StatusCode table (59 rows), Headers append semantics, set_body content-type rule; UTF-8 well-formedness modelled "
+                  "exactly (Unicode table 3-7) and compared with encoding_rs/Rust on every run; all other charsets, Mime parameter "
+                  "parsing, Encoding::for_label and serde_json decoding are opaque parameters supplied by the generator from the crates "
+                  "themselves. The oracle refines a rejection key with `+model-mismatch` unless the observation is exactly what the "
+                  "model predicts, so a known finding covers only the modelled defect. Spec choice: under a UTF-8 label a leading UTF-8 "
+                  "byte order mark is kept (String::from_utf8 semantics, DESIGN §5-C15), although encoding_rs' decode would strip it.",
+    "assumptions": [
+        "HttpError::Http / Json can reach the core only in-process (serde(skip)); they are passed through like the wire variants",
+        "the panic class is read from the panic message (`StatusCode` / `valid ASCII`)",
+        "body expectations other than bytes/string/json::<Value>/json::<u64> (e.g. user structs) behave as serde_json decides (opaque)",
+    ],
+}
+
+
+# ---------------------------------------------------------------------------------------------- C10 (engine codec)
+def codec_gen(tier, seed):
+    if tier == "quick":
+        return [["gen-fixed"], ["gen", seed, 12000]]
+    return [["gen-fixed"], ["gen", seed, 60000], ["gen", seed + 1, 60000]]
+
+
+def _codec_head(case):
+    # kind, root and the payload's head (variant name of a value / length class of bytes)
+    toks = case.split(" ", 2)
+    kind, root = toks[0], toks[1]
+    rest = toks[2] if len(toks) > 2 else ""
+    return kind, root, rest
+
+
+def codec_shape(case, out):
+    # distinct = (kind, root, outcome, top-level variant of the value written / accepted, length class of the bytes)
+    kind, root, _ = _codec_head(case)
+    o = out.split(" ")
+    cls = o[0]
+    if cls == "wrote":
+        hexs, val = o[1], " ".join(o[2:])
+    elif cls == "accepted":
+        hexs, val = o[-2], " ".join(o[1:-2])
+    else:
+        hexs, val = "-", ""
+    variant = val[2:].split(" ")[0].rstrip(")") if val.startswith("(#") else ("seq" if val.startswith("[") else "")
+    return (kind, root, cls, variant, lenclass(hexs), o[-1] if cls == "accepted" else "")
+
+
+def codec_nontrivial(case, out):
+    # non-trivial: at least one byte crosses the bridge (unit structs / empty inputs are trivial), no harness-side refusal
+    o = out.split(" ")
+    if o[0] in ("bad-case", "panic", "unbuildable"):
+        return False
+    if o[0] == "wrote":
+        return o[1] != "-"
+    if o[0] == "accepted":
+        return o[-2] != "-"
+    return not case.split(" ")[3:4] == ["-"]
+
+
+PROPS["C10"] = {
+    "streams": [Stream("codec", "codec", "codec", codec_gen, nontrivial=codec_nontrivial, shape=codec_shape)],
+    "rule": "the registries are traced on every run by TypeGen::register_app for two harness apps (A: #[effect(typegen)], Event/ViewModel "
+            "with unit/newtype/tuple/struct variants, every integer width, f32/f64, char, bool, strings, serde_bytes, nested options, "
+            "vecs, BTreeMap, arrays, tuples, unit/newtype/tuple structs, recursive enums, and the protocol types of render, http, kv, "
+            "time, platform; B: #[derive(Effect, Export)] capabilities with skipped internal events); every container of both registries "
+            "is a root (35 roots incl. Vec<Request<EffectFfi>>), the harness refuses to run if a traced container has no Rust type. Per "
+            "root: `val` = Rust values from hand-written generators (every variant round-robin, lengths 0/1/2/many, strings incl. NUL, "
+            "4-byte UTF-8, 300+ chars, bytes incl. all 256 values and 1-4 KiB, integer boundaries min/max/+-1/0, NaN/inf/-0/subnormal "
+            "floats, nested options) rebuilt by variant NAME through Deserialize, serialised with the bridge's bincode options and read "
+            "back; `strict` = encodings built from the traced registry alone (every variant of every enum, boundary integers, lengths "
+            "0/1/many) given to the real bincode deserialiser of the Rust type and re-serialised, plus the same values as `val`; `any` = "
+            "those encodings mutated (trailing bytes, truncation, bit flips, tag/length bytes set to boundary values, random bytes; not "
+            "for roots containing a map); `strict` also = every byte string Bridge::process_event / handle_response / view returned for "
+            "generated histories of both apps (events and responses encoded from the schema, as a shell does). non-trivial = at least one "
+            "byte is written / accepted or a non-empty input is rejected; distinct = distinct (kind, root, outcome, top-level variant, "
+            "length class, trailing flag)",
+    "level_text": "Proof: for EVERY registry, format, value and byte string (no bound): dec_enc (a well-typed value's encoding, followed "
+                  "by anything, decodes to that value and leaves exactly the rest; fuel = nesting depth suffices), enc_dec (whatever the "
+                  "schema-driven decoder accepts is the canonical encoding of a well-typed value: re-encoding reproduces the consumed "
+                  "bytes), enc_prefix_free / enc_injective, dec_fuel_irrelevant, dec_total_bounded / str_len_checked / seq_len_bounded, "
+                  "C10_oracle_sound (the specification oracle accepts every observation of the model). All formats are covered (unit, "
+                  "bool, i8..u128, f32/f64, char, str with UTF-8 validity, bytes, option, seq, map, tuple, array) and all container "
+                  "kinds (unit/newtype/tuple/named struct, enum with unit/newtype/tuple/struct variants), including recursive registries. "
+                  "Whether serde's derive output for a Rust type writes enc v for the v the traced schema assigns to it is checked "
+                  "empirically on every run on the registry traced from the working tree. One way it does not is modelled and proved: "
+                  "derive_indices_agree_iff, C10_full_false (crux_http::HttpError: #[serde(skip)] variants declared first shift the "
+                  "numbers Serialize writes), C10_partial.",
+    "level_note": "Trusted: Lean kernel + 3 standard axioms; serde-reflection's tracing (its output, regenerated from the source on every "
+                  "run, is the input of the theorems); the hand model M.Bincode of bincode 1.3.3 with the bridge's options and the "
+                  "universal value (checked against the real serde derive + bincode on ~12k (quick) / ~120k (thorough) cases per run over "
+                  "every registered type, both directions, incl. malformed inputs); the harness's generic Serialize->value printer and "
+                  "value->Deserialize builder (each checked against the other on every `val` case). dec takes fuel for container lookups "
+                  "(a registry may be cyclic); the driver uses (input length + 1) * (registry size + 1). Maps are sequences of pairs on "
+                  "the wire; key order / uniqueness belong to the Rust map type, so generated maps are in key order. C10_full is about "
+                  "derive's variant numbering only; it is false (HttpError), the finding is keyed httperror-skip-index.",
+    "assumptions": [
+        "64-bit target: usize is written as u64",
+        "the registry is the one Tracer::registry() returns for register_app (+ register_type for nested enums, as a build.rs must)",
+        "f32/f64 are compared as bit patterns",
+    ],
+    "stated_not_proved": [],
+}
+
+# ---------------------------------------------------------------- rt engine (runtime properties)
+import re as _re
+
+
+def _sexp_parse(s):
+    toks = _re.findall(r"\(|\)|[^\s()]+", s)
+    stack, cur = [], []
+    for t in toks:
+        if t == "(":
+            stack.append(cur)
+            cur = []
+        elif t == ")":
+            parent = stack.pop()
+            parent.append(cur)
+            cur = parent
+        else:
+            cur.append(t)
+    return cur[0] if cur else None
+
+
+def _sexp_str(x):
+    return x if isinstance(x, str) else "(" + " ".join(_sexp_str(y) for y in x) + ")"
+
+
+_CMD_HEADS = {"event", "notify", "req", "stream", "chain", "then", "and", "all", "mapef", "mapev", "task", "abortable"}
+
+
+def sexp_shrinks(case, limit=400):
+    """smaller cases: delete one element of some list, or replace a command form by `done`"""
+    root = _sexp_parse(case)
+    out = []
+
+    def paths(x, path):
+        if isinstance(x, list):
+            yield path, x
+            for i, y in enumerate(x):
+                yield from paths(y, path + [i])
+
+    def replace(x, path, f):
+        if not path:
+            return f(x)
+        y = list(x)
+        y[path[0]] = replace(x[path[0]], path[1:], f)
+        return y
+
+    for path, node in paths(root, []):
+        start = 1 if node and isinstance(node[0], str) else 0
+        for i in range(len(node) - 1, start - 1, -1):
+            if not path and i < 3 and not isinstance(node[i], list):
+                continue
+            cand = replace(root, path, lambda n, i=i: n[:i] + n[i + 1:])
+            out.append(_sexp_str(cand))
+        if path and node and isinstance(node[0], str) and node[0] in _CMD_HEADS and len(path) >= 1:
+            out.append(_sexp_str(replace(root, path, lambda n: "done")))
+        if len(out) > limit:
+            break
+    return out[:limit]
+
+
+def rt_gen(profiles, quick_n, thorough_n):
+    def gen(tier, seed):
+        n = quick_n if tier == "quick" else thorough_n
+        return [["gen", seed + i, max(1, n // len(profiles)), p] for i, p in enumerate(profiles)]
+    return gen
+
+
+def rt_shape(case, out):
+    heads = tuple(sorted(set(_re.findall(r"\((\w[\w-]*)", case))))
+    steps = out.split(" || ")[0].split(" | ")
+    classes = tuple(sorted({st.split(" ")[0] for st in steps}))
+    return (heads, len(steps), classes)
+
+
+def rt_nontrivial(case, out):
+    # non-trivial: at least one request was handed to the shell and at least one shell action was accepted
+    return _re.search(r"E[\[{][^\]}]", out) is not None and (" ok " in out or out.startswith("ok ") or "A: " in out or "D: " in out)
+
+
+def rt_stream(pid, profiles, quick_n=24000, thorough_n=600000):
+    return Stream("rt", "rt", "rt-" + pid, rt_gen(profiles, quick_n, thorough_n), nontrivial=rt_nontrivial,
+                  shape=rt_shape, shrink=sexp_shrinks)
+
+
+RT_RULE = ("cases = (host, DSL program, shell history), generated from the DSL grammar by a size-bounded recursive generator "
+           "seeded from VERIF_SEED (profiles: %s); programs mix primitives, builder chains, then/and/all/map_effect/map_event, "
+           "async tasks with spawn/join/select/await/abort/self-wake, abort handles, legacy capability tasks; histories mix "
+           "resolve (unique payloads, look-alike operations), repeated and late resolves, drops, aborts, events, raw (malformed) "
+           "bytes; every case runs on the real crux_core through the public API and on the Lean model M.Rt/M.Hosts, the two "
+           "observation lines must be string-equal, and the property oracle is evaluated on the implementation's line; "
+           "non-trivial = at least one effect reached the shell and at least one shell action was accepted; distinct = distinct "
+           "(set of DSL constructs and actions used, number of steps, set of result classes)")
+RT_NOTE = ("Trusted: Lean kernel + propext/Classical.choice/Quot.sound; the hand model M.Rt (open-recursion interpreter of the "
+           "executor, wakers, eviction by waker count, hosting, Core::process, registry) — tied to /repo by this run's "
+           "correspondence (exact string equality of per-step observations incl. effect order, ids, task counts, queue lengths via "
+           "the crux_verif hooks); the Rust DSL interpreter in harness/src/dsl.rs (that `(join a b)` is futures::join! etc.); "
+           "futures-channel mpsc, AtomicWaker, crossbeam channels, slab modelled (sub-models in M.Rt/M.Slab, exercised through "
+           "the real code). Theorems are partial-correctness statements (\"if the call returns\": the model's loops take fuel). "
+           "Statements kept as `def …_goal : Prop` are NOT proved and are listed in the evidence under stated_not_proved.")
+
+
+def rt_prop(pid, profiles, level_text, goals=(), quick_n=24000, thorough_n=600000):
+    PROPS[pid] = {
+        "streams": [rt_stream(pid, profiles, quick_n, thorough_n)],
+        "rule": RT_RULE % ", ".join(profiles),
+        "level_text": level_text,
+        "level_note": RT_NOTE,
+        "stated_not_proved": list(goals),
+        "assumptions": ["single caller (no concurrency: see C08)", "user programs terminate (fuel-bounded model; partial correctness)"],
+    }
+
+
+rt_prop("C01", ["core", "bridge", "hosts"],
+        "Proof (Props/C01.lean): when Core::process / process_event returns, the request channel has been handed over completely and "
+        "emptied, no emitted event is unapplied, the executor has no runnable or unspawned task (C01_core_quiescent, "
+        "C01_handed_over_once, C01_run_all_drains); run_until_settled leaves any non-aborted command with empty ready and spawn "
+        "queues for ANY task behaviour (C01_command_settled); poll_next reports end/pending only with nothing queued. The nested "
+        "instance over all hosted commands is stated (C01_nested_quiescent_goal) but not proved; it is covered by the correspondence "
+        "(queue-length hooks, no-op probe after every call) and the oracle clauses effect-deferred-to-later-call / not-quiescent-after-call.",
+        goals=["C01_nested_quiescent_goal"])
+rt_prop("C02", ["task", "core", "bridge", "comb"],
+        "Proof (Props/C02.lean): Resolve arities on the model of core/resolve.rs — never_rejected, once_accepts_one, "
+        "once_second_rejected (second resolve = error, world unchanged), many_until_consumer_gone (ok iff consumer alive, else "
+        "FinishedMany and nothing changes), delivered_unchanged_in_order (the value is appended unchanged to the request's own "
+        "channel), delivery_channel_private (fresh channel per request), serialized_agrees (bridge path = decode then resolve). The "
+        "whole-run uniqueness of delivery is covered by the correspondence (unique payloads, equal operations, every resolve result "
+        "class compared) — oracle keys resolve-result-differs / delivery-differs.")
+rt_prop("C03", ["core", "bridge"],
+        "Proof (Props/C03.lean): update applies exactly one event (update_applies_one); running tasks never touches the model "
+        "(tasks_do_not_touch_model); the event loop only appends to the log and applies the head of the FIFO channel next "
+        "(events_fifo_once, emission_fifo); at return every emitted event has been applied (all_applied_at_return). Re-entrancy is "
+        "structural in the model and monitored on the implementation by a flag in the harness app (oracle key reentrant-update).")
+rt_prop("C04", ["comb", "task", "law", "comm"],
+        "Proof (Props/C04.lean) on the reference semantics M.Rt: then = host first, then host second, and a block moves past `host c` "
+        "only when c reported end of stream, which happens only when c is done (then_is_sequential_hosting, then_sequencing, "
+        "host_ends_only_when_done); hosting forwards every output exactly once after the mapping (host_forwards_each_once); "
+        "map_effect/map_event transform exactly their kind (map_effect_exact, map_event_exact, map_identity); and/all = one hosting "
+        "task per part; builder chains are sequential code feeding each output to the next stage once (chain_*). The algebraic laws as "
+        "whole-interaction equivalences are stated (laws_goal), not proved; they are checked metamorphically on the implementation and "
+        "the model on every run (`law`, `comm` cases; oracle key law-violated).",
+        goals=["laws_goal"])
+rt_prop("C05", ["hosts", "law"],
+        "Proof (Props/C05.lean): wake_reaches_root — waking a task of a command nested at ANY depth re-queues every hosting task on "
+        "the chain and puts the executor task on the executor's ready queue (induction over the hosting chain); poll_next registers "
+        "the host's waker before running tasks; dropping a request wakes like resolving it; the bridge is the core plus ids "
+        "(bridge_is_core_plus_ids). Host invariance as whole-interaction equivalence is stated (host_invariance_goal), not proved; it "
+        "is checked on every run by executing each program under direct / Core / bincode Bridge / JSON Bridge hosts and under random "
+        "wrapper stacks and comparing per-step multisets pairwise on the implementation (oracle key host-dependent).",
+        goals=["host_invariance_goal"])
+rt_prop("C06", ["cancel", "task"],
+        "Proof (Props/C06.lean): an aborted task is reported completed without being polled and nothing changes (task_abort_final); "
+        "an aborted command drops all tasks without calling the task layer at all and is done as soon as its queues are empty "
+        "(abort_drops_all_tasks, abort_polls_nothing, abort_done); a late resolve of cancelled work is rejected (stream) or accepted "
+        "and discarded (one-shot) without touching the consumer's channel, never a panic outcome (late_resolve_inert); a dropped "
+        "request cannot be resolved (dropped_request_unresolvable). Non-interference with siblings is stated "
+        "(siblings_unaffected_goal), covered by the `cancel` profile of the correspondence.",
+        goals=["siblings_unaffected_goal"])
+rt_prop("C07", ["task", "cancel", "comb"],
+        "Proof (Props/C07.lean): a task is evicted only if its poll was pending, its waker was not woken during the poll and no clone "
+        "of it survives anywhere (evict_only_if_unreachable, held_task_never_discarded); done iff no task, no effect, no event "
+        "(done_iff); a host sees end-of-stream exactly when the command is done (host_sees_done_exactly). Completeness of eviction is "
+        "stated (evict_complete_goal), checked per step by the correspondence on the modelled fragment (`d`, `t` counters).",
+        goals=["evict_complete_goal"])
+rt_prop("C09", ["bridge", "hosts"],
+        "Proof (Props/C09.lean): the bridge simulates the typed core step by step — event (bridge_simulates_core_event) and response "
+        "(bridge_simulates_core_response): decoded requests = core effects in order, same core state; ids of a batch are pairwise "
+        "distinct, were not in use, and address the resolve of their effect (ids_fresh_and_distinct); an outstanding id is never "
+        "reused nor disturbed (outstanding_id_not_reused); resume routes to exactly the addressed entry and touches no other "
+        "(resume_routes_exactly); the registry invariant holds in every reachable state (registry_wf_invariant). Ids and registry "
+        "content are compared exactly with the implementation on every run (bincode and JSON bridges).")
+rt_prop("C12", ["malformed", "bridge"],
+        "Proof (Props/C12.lean): a rejected event leaves the bridge exactly as it was (rejected_event_inert); a rejected response to a "
+        "stream request changes nothing (rejected_response_stream_inert); to a one-shot request it consumes that request only — entry "
+        "removed, channel closed, every other entry untouched, core not run (rejected_response_local); a response to an outstanding "
+        "request never panics in the model (outstanding_never_panics); the wire decoders read a bounded prefix (decode_bounded). "
+        "Panics / hangs of the real code are bounded empirically: every case runs under catch_unwind; malformed bytes (truncations, "
+        "extensions, bit flips, random, empty, JSON fragments) are injected at every position of generated histories.")
+rt_prop("C13", ["bridge", "core", "cancel"],
+        "Proof (Props/C13.lean): finished/cancelled tasks free their slab slot (finished_task_slot_freed), completed executor tasks "
+        "free theirs (completed_exec_task_freed), an aborted command holds no task once looked at "
+        "(aborted_command_releases_tasks), an answered one-shot/notification entry is forgotten (answered_entry_forgotten). The full "
+        "registry statement is FALSE on the code (registry_bounded_full_false: notifications are registered and never removed; "
+        "finished_stream_entry_stays) — known findings registry-retains-never / registry-retains-finished-many — and holds for "
+        "batches of resolvable requests (registry_bounded_partial). Occupancy of all slabs is compared with the model after every "
+        "call through the crux_verif hooks.",
+        goals=["tasks_released_goal"])
+
 # properties not claimed yet, with the reason shown in MANIFEST.not_applicable
 NOT_YET = {}
+# ---- C18 (engine timer) -----------------------------------------------------------------------------------------
+def timer_gen(tier, seed):
+    if tier == "quick":
+        return [["gen-exh", 7, "cmd", "alt"], ["gen-exh", 6, "core", "alt"], ["gen-exh", 4, "legacy"], ["gen", seed, 8000]]
+    return [["gen-exh", 9, "cmd", "A"], ["gen-exh", 8, "cmd", "T"], ["gen-exh", 8, "core", "alt"],
+            ["gen-exh", 6, "legacy"], ["gen", seed, 400000]]
+
+
+def timer_nontrivial(case, out):
+    # non-trivial: something beyond "request sent" was observed (a Clear request, an outcome, a panic, a refused resolve)
+    return any(x in out for x in ("+clear", "!", "panic", "err"))
+
+
+def timer_shape(case, out):
+    import re
+    host, kinds = case.split(" ")[:2]
+    recs = frozenset(re.sub(r"\d", "#", r) for r in out.split(" ")[1:])
+    return (host, len(kinds), recs)
+
+
+def timer_shrinks(case):
+    toks = case.split(" ")
+    head, acts = toks[:2], toks[2:]
+    out = [" ".join(head + acts[:i] + acts[i + 1:]) for i in range(len(acts))]
+    # drop the last timer when nothing addresses it
+    n = len(head[1])
+    if n > 1 and not any(a.endswith(str(n - 1)) for a in acts):
+        out.append(" ".join([head[0], head[1][:-1]] + acts))
+    return out
+
+
+PROPS["C18"] = {
+    "streams": [Stream("timer", "timer", "timer", timer_gen, nontrivial=timer_nontrivial, shape=timer_shape,
+                       shrink=timer_shrinks)],
+    "rule": "case = host (cmd: every timer's Command driven directly with effects()/events()/is_done(); core: the Commands "
+            "returned from an App's update and hosted by a real Core; legacy: caps.time.notify_after/notify_at/clear in a Core) "
+            "x constructor per timer (notify_after | notify_at) x 1..4 timers x a sequence of actions addressed to a timer: poll, "
+            "fire (matching response), fire with a foreign id, fire with the other kind, drop the request, handle.clear(), drop "
+            "the handle, answer the Clear request (right / foreign id / wrong kind), drop the Clear request; a second resolve of "
+            "a request is the duplicate / late response; legacy: start, start+clear in one update, clear(id), fire/wrong/drop, "
+            "resolve the Clear notification. ENUMERATED: every sequence the syntactic applicability automaton admits for one "
+            "timer up to length 7 (cmd), 6 (core), 4 (legacy) in the quick tier and 9 / 8 / 6 in the thorough tier; SAMPLED: "
+            "seeded random sequences of length 3..20 over 1..4 timers for all three hosts. Observation per step: result class "
+            "of the call (performed/ok/err/nothing to act on/panic), the TimeRequest effects that became visible (kind + owner "
+            "of the id), the outcome events, is_done(); plus whether the raw ids were pairwise distinct and increasing in "
+            "creation order. non-trivial = a Clear request, an outcome, a panic or a refused resolve was observed; distinct = "
+            "distinct (host, number of timers, set of step records with indices abstracted)",
+    "level_text": "Proof: for EVERY list of (action, command-run-afterwards?) pairs (unbounded; induction over the list with the "
+                  "timer's control state as invariant) the Lean model of notify_after/notify_at satisfies every clause of the "
+                  "specification monitor S.Timer written from the property text: at_most_one_outcome (also by a direct counting "
+                  "argument), completed_only_if_answered, cleared_only_if_cleared, clear_before_start_silent (+ direct form), "
+                  "clear_while_pending_one_clear (one Clear, sent when due, cleared reported once answered), answer_wins_if_waiting, "
+                  "drop_handle_no_cancel (+ direct form), late_ignored (+ direct form), request_sent_quiet_no_panic_own_ids; "
+                  "ids_unique / ids_increasing for the wrapping usize counter; timers_independent (the part of a joint run the "
+                  "specification attributes to one timer is a run of that timer alone, for direct and Core hosting); "
+                  "C18_command_sound (the oracle accepts the model on every case, any number of timers, both hosts). Legacy "
+                  "capability API: C18_legacy_full (the same oracle incl. 'a clear of a timer that is not pending sends nothing') is "
+                  "FALSE on the unchanged code - C18_legacy_full_false proves it from the witness `start+clear in one update` and the "
+                  "real code reproduces it (known finding legacy-clear-always-notifies); C18_legacy_partial proves every other "
+                  "clause for every legacy history. The model is tied to the code by running the same enumerated and sampled cases "
+                  "through the real crux_time/crux_core code and the compiled model on every run and comparing line by line.",
+    "level_note": "Trusted: Lean kernel + propext/Classical.choice/Quot.sound; the hand model M.Timer of command.rs:48-208, lib.rs:26-29, "
+                  "93-225 and of the Command runtime facts it relies on (a task is polled only when woken; a request future sends its "
+                  "effect on first poll; Request::resolve is Ok once then Err; a dropped Request closes the channel, wakes the task, the "
+                  "future then pends forever and a task no future of which kept the waker is evicted; futures' select_biased!/oneshot "
+                  "semantics) - all exercised through the real code by the correspondence on every run, exhaustively for one timer up "
+                  "to the stated lengths. Steps after a response of the wrong kind / with a foreign id was delivered where the code "
+                  "inspects it are outside the property (the real task panics; model and code agree on that). Thread interleavings "
+                  "inside one poll are not modelled (C08).",
+    "assumptions": [
+        "a Command is driven from one thread at a time (effects()/events()/Core calls are not interleaved with each other)",
+        "fewer than 2^64 timers are created per process (the id counter is a wrapping AtomicUsize; ids_unique holds for any 2^64 "
+        "consecutive allocations)",
+        "the harness reads private ids through the Debug output of TimerHandle / CompletedTimerHandle",
+    ],
+}
+
 ENGINE_TEXT = {
+    "timer": "real crux_time timers (command API driven directly and hosted in a Core; legacy capability API in a Core), harness as shell and app (Rust) vs M.Timer (Lean), oracle S.Timer",
+    "codec": "real serde derive + bincode (bridge options) on every type TypeGen::register_app traces, and real Bridge outputs (Rust) vs the verified schema-driven codec M.Bincode run on the traced registry (Lean), oracle S.Codec",
+    "http": "real crux_http request builders and response handling (capability + command API) through a real Core<App> (Rust) vs M.Http (Lean), oracle S.Http",
     "cli": ENGINE_TEXT_C20,
     "mw": "real crux_http middleware stacks + Redirect through a real Core<App>, harness as shell (Rust) vs M.Mw (Lean), oracle S.Mw",
+    "rt": "DSL programs x shell histories on the real crux_core runtime (direct / Core / bincode+JSON Bridge hosts, command and legacy capability API) vs M.Rt/M.Hosts (Lean); oracles Driver/RtOracle.lean",
     "kv": "real crux_kv calls (capability + command API; Core and bincode Bridge hosts) vs M.Kv (Lean), oracle S.Kv",
     "conv": "differential driver for crux_time::protocol conversions (Rust) vs M.Conv (Lean), oracle S.Conv",
 }
 HOOK_COMMITS = []
+
+# Only these are listed in MANIFEST.json as claimed (the lead adds an id here once its check has been reviewed and passes).
+CLAIMED = ["C01", "C02", "C03", "C04", "C05", "C06", "C07", "C09", "C12", "C13", "C16", "C17", "C19"]
